@@ -89,7 +89,7 @@ structure Dump where
   objs : List Obj
   levels : List Level
   typeDepths : List Int
-deriving Repr, Inhabited
+deriving Repr, Inhabited, DecidableEq
 
 def Dump.obj? (d : Dump) (i : Int) : Option Obj := if i < 0 then none else d.objs[i.toNat]?
 
